@@ -38,46 +38,21 @@ Section GateLemmas.
           | match goal with He : ?e * rconj ?e = 1 |- _ => ring [Hi Hh Hq He] end ].
 
   (* -------------------------------------------------------------- gate_matches_std *)
-  (* gates free of F6 / F7 *)
-  Definition ok1 (g : gate1 SR) : bool :=
-    match g with
-    | G1Named NY _ => false
-    | G1Rot RRy _ => false
-    | _ => true
-    end.
-  (* Controlled: target free of F6 / F7 and not carrying a dagger flag (F8) *)
-  Definition ok2 (g : gate2 SR) : bool :=
-    match g with
-    | G2Ctrl g1 => ok1 g1 && negb (gate1_is_dagger g1)
-    | _ => true
-    end.
-
   Ltac gate_cases :=
     unfold mtrans, gate1_eval, gate2_eval, madj, mscale, mat_of_flat;
     cbn -[rw8 pcos psin rconj]; try reflexivity; sring.
 
-  Lemma gate1_matches_std : forall g, ok1 g = true ->
+  Lemma gate1_matches_std : forall g : gate1 SR,
     meq 1 1 (mtrans (gate1_eval g)) (mat_of_flat (std_gate1 g)).
   Proof.
-    intros g Hok i o Hi' Ho'. dbits;
-      destruct g as [[] []|[] e]; try discriminate Hok; gate_cases.
+    intros g i o Hi' Ho'. dbits; destruct g as [[] []|[] e]; gate_cases.
   Qed.
 
-  (* F6, exactly: Y (either flag) evaluates to MINUS the Pauli matrix *)
-  Lemma gate1_Y_is_minus_std : forall d,
-    meq 1 1 (mtrans (gate1_eval (@G1Named SR NY d))) (mscale (ropp 1) (std_mat SY 1)).
-  Proof. intros d i o Hi' Ho'. unfold std_mat. dbits; destruct d; gate_cases. Qed.
-
-  (* F7, exactly: Ry(p) evaluates to tket's Ry(-p) *)
-  Lemma gate1_Ry_is_std_neg : forall e,
-    meq 1 1 (mtrans (gate1_eval (G1Rot RRy e))) (std_mat SRy (rconj e)).
-  Proof. intros e i o Hi' Ho'. unfold std_mat. dbits; gate_cases. Qed.
-
-  Lemma gate2_matches_std : forall g, ok2 g = true ->
+  Lemma gate2_matches_std : forall g : gate2 SR,
     meq 2 2 (mtrans (gate2_eval g)) (mat_of_flat (std_gate2 g)).
   Proof.
-    intros g Hok i o Hi' Ho'.
-    destruct g as [|[[] []|[] e]|[] e]; try discriminate Hok; dbits; gate_cases.
+    intros g i o Hi' Ho'.
+    destruct g as [|[[] []|[] e]|[] e]; dbits; gate_cases.
   Qed.
 
   (* -------------------------------------------------------------- controlled *)
@@ -86,20 +61,12 @@ Section GateLemmas.
   Definition ctrl_of U : mat SR :=
     mat_of_flat (controlled_flat [U [false] [false]; U [false] [true]; U [true] [false]; U [true] [true]]).
 
-  (* Controlled(g) evaluates to the controlled version of g's evaluation for
-     every g that is not a daggered named gate (including Y and Ry) *)
-  Lemma controlled_is_controlled : forall g, gate1_is_dagger g = false ->
+  (* Controlled(g) evaluates to the controlled version of g's evaluation, for every
+     one-qubit gate g, daggered or not *)
+  Lemma controlled_is_controlled : forall g : gate1 SR,
     meq 2 2 (gate2_eval (G2Ctrl g)) (ctrl_of (gate1_eval g)).
   Proof.
-    intros g Hd i o Hi' Ho'. unfold ctrl_of, gate2_eval, gate1_eval. rewrite Hd.
-    dbits; destruct g as [[] []|[] e]; try discriminate Hd; reflexivity.
-  Qed.
-
-  (* whatever the flag, Controlled(g) is the controlled version of g's RAW array (F8) *)
-  Lemma controlled_uses_raw_array : forall g,
-    meq 2 2 (gate2_eval (G2Ctrl g)) (ctrl_of (mat_of_flat (gate1_flat g))).
-  Proof.
-    intros g i o Hi' Ho'. unfold ctrl_of, gate2_eval.
+    intros g i o Hi' Ho'. unfold ctrl_of, gate2_eval, gate1_eval.
     dbits; destruct g as [[] []|[] e]; reflexivity.
   Qed.
 
@@ -159,8 +126,8 @@ Section GateLemmas.
   Proof.
     intros g Hp. destruct g as [|g1|r e].
     - split; intros i o Hi' Ho'; dbits; unitary_cases.
-    - eapply unitary_compat; [apply meq_sym, controlled_uses_raw_array|].
-      apply ctrl_unitary, gate1_raw_unitary, Hp.
+    - eapply unitary_compat; [apply meq_sym, controlled_is_controlled|].
+      apply ctrl_unitary, gate1_unitary, Hp.
     - cbn in Hp; unfold is_phase in Hp.
       split; intros i o Hi' Ho'; dbits; destruct r; unitary_cases.
   Qed.
@@ -184,14 +151,6 @@ Section GateLemmas.
   Qed.
 
   (* -------------------------------------------------------------- dagger of a box *)
-  (* boxes whose dagger is NOT the conjugate transpose (F8): Controlled(S), Controlled(T)
-     with either flag.  (Controlled(Y) is Hermitian as built, so it is fine.) *)
-  Definition f8_free_box (b : box SR) : bool :=
-    match b with
-    | BG2 (G2Ctrl (G1Named NS _)) | BG2 (G2Ctrl (G1Named NT _)) => false
-    | _ => true
-    end.
-
   Lemma box_dagger_dom : forall b : box SR, box_dom (box_dagger b) = box_cod b.
   Proof. destruct b; reflexivity. Qed.
   Lemma box_dagger_cod : forall b : box SR, box_cod (box_dagger b) = box_dom b.
@@ -213,19 +172,19 @@ Section GateLemmas.
     meq 1 1 (gate1_eval (gate1_dagger g)) (madj (gate1_eval g)).
   Proof. intros g i o Hi' Ho'. dbits; destruct g as [[] []|[] e]; dagger_cases. Qed.
 
-  Lemma gate2_dagger_eval : forall g : gate2 SR, f8_free_box (BG2 g) = true ->
+  Lemma gate2_dagger_eval : forall g : gate2 SR,
     meq 2 2 (gate2_eval (gate2_dagger g)) (madj (gate2_eval g)).
   Proof.
-    intros g Hf i o Hi' Ho'.
-    destruct g as [|[[] []|[] e]|[] e]; try discriminate Hf; dbits; dagger_cases.
+    intros g i o Hi' Ho'.
+    destruct g as [|[[] []|[] e]|[] e]; dbits; dagger_cases.
   Qed.
 
-  Lemma box_dagger_eval : forall b, f8_free_box b = true ->
+  Lemma box_dagger_eval : forall b : box SR,
     meq (box_cod b) (box_dom b) (box_eval (box_dagger b)) (madj (box_eval b)).
   Proof.
-    intros b Hf. destruct b as [g|g| |bs|bs|z|k].
+    intros b. destruct b as [g|g| |bs|bs|z|k].
     - apply gate1_dagger_eval.
-    - apply gate2_dagger_eval, Hf.
+    - apply gate2_dagger_eval.
     - intros i o Hi' Ho'. cbn in Hi', Ho'. dbits; dagger_cases.
     - intros i o Hi' Ho'. cbn in Hi', Ho'. destruct o; [|discriminate].
       unfold madj. cbn. rewrite app_nil_r, conj_delta. reflexivity.
@@ -235,3 +194,6 @@ Section GateLemmas.
     - intros i o _ _. unfold madj. cbn. rewrite conj_sqrt2_pow. reflexivity.
   Qed.
 End GateLemmas.
+
+Arguments ctrl_of {_}. Arguments phases_ok1 {_}.
+Arguments phases_ok2 {_}. Arguments is_gate {_}. Arguments phases_ok {_}.
